@@ -28,11 +28,14 @@ import (
 	"strconv"
 	"strings"
 	"sync"
+	"sync/atomic"
+	"syscall"
 	"time"
 
 	"github.com/basekick-labs/arc/internal/compaction"
 	"github.com/basekick-labs/arc/internal/storage"
 	"github.com/basekick-labs/arc/internal/verif/vh"
+	"github.com/basekick-labs/arc/internal/verifclock"
 	_ "github.com/duckdb/duckdb-go/v2"
 	"github.com/rs/zerolog"
 )
@@ -54,6 +57,11 @@ const (
 	fKill
 	fCrash
 	fTorn // the node dies while the output is half written at its final key (non-atomic backend)
+	// fCancel: graceful cancellation (SIGTERM → the job's signal.NotifyContext): the job ctx is cancelled
+	// right before its pos-th storage mutation — for the upload that is INSIDE WriteReader, which then
+	// completes the write successfully (LocalBackend does not consult ctx). pos 100: at the first
+	// download read; pos 101: after the last download read (the merge sees a cancelled ctx).
+	fCancel
 )
 
 type fault struct {
@@ -89,9 +97,28 @@ type fb struct {
 	onMut  func(kind, path string, data []byte) // called BEFORE a mutation is applied (monitors, name learning)
 	muts   []string
 	recDel map[string]bool // parent side: input deletes that fail with a storage error
+	cancelAt    int        // -1 = never; see fCancel
+	expectReads int32
+	readsStart  atomic.Int32
+	readsDone   atomic.Int32
+	cancelled   atomic.Bool
 }
 
-func (b *fb) gate(kind, path string, data []byte) error {
+// cancelNow delivers SIGTERM to this process (RunSubprocessJob's signal.NotifyContext turns it into the
+// cancellation of the job ctx) and waits until the ctx it was handed is done.
+func (b *fb) cancelNow(ctx context.Context) {
+	if b.cancelled.Swap(true) {
+		return
+	}
+	syscall.Kill(syscall.Getpid(), syscall.SIGTERM)
+	select {
+	case <-ctx.Done():
+	case <-time.After(3 * time.Second):
+		ctxC.Tag("cancel-not-observed")
+	}
+}
+
+func (b *fb) gate(ctx context.Context, kind, path string, data []byte) error {
 	b.ep.mu.Lock()
 	dead := b.ep.dead
 	if dead {
@@ -103,6 +130,9 @@ func (b *fb) gate(kind, path string, data []byte) error {
 	}
 	if b.child && b.dieAt >= 0 && b.nmut == b.dieAt {
 		panic(dieSentinel{b.kind})
+	}
+	if b.child && b.cancelAt >= 0 && b.cancelAt < 100 && b.nmut == b.cancelAt {
+		b.cancelNow(ctx)
 	}
 	b.nmut++
 	b.muts = append(b.muts, kind)
@@ -124,7 +154,7 @@ func (b *fb) Write(ctx context.Context, path string, data []byte) error {
 	if strings.HasPrefix(path, manState+"/") {
 		k = "writeManifest"
 	}
-	if err := b.gate(k, path, data); err != nil {
+	if err := b.gate(ctx, k, path, data); err != nil {
 		return err
 	}
 	return b.inner.Write(ctx, path, data)
@@ -141,7 +171,7 @@ func (b *fb) WriteReader(ctx context.Context, path string, r io.Reader, size int
 		}
 		panic(dieSentinel{fTorn})
 	}
-	if err := b.gate("upload", path, nil); err != nil {
+	if err := b.gate(ctx, "upload", path, nil); err != nil {
 		return err
 	}
 	return b.inner.WriteReader(ctx, path, r, size)
@@ -150,14 +180,21 @@ func (b *fb) Delete(ctx context.Context, path string) error {
 	if !b.child && b.recDel != nil && b.recDel[path] {
 		return errors.New("verif: injected storage error on delete")
 	}
-	if err := b.gate(mutKindOfDelete(path), path, nil); err != nil {
+	if err := b.gate(ctx, mutKindOfDelete(path), path, nil); err != nil {
 		return err
 	}
 	return b.inner.Delete(ctx, path)
 }
 func (b *fb) Read(ctx context.Context, p string) ([]byte, error) { return b.inner.Read(ctx, p) }
 func (b *fb) ReadTo(ctx context.Context, p string, w io.Writer) error {
-	return b.inner.ReadTo(ctx, p, w)
+	if b.child && b.cancelAt == 100 && b.readsStart.Add(1) == 1 {
+		b.cancelNow(ctx)
+	}
+	err := b.inner.ReadTo(ctx, p, w)
+	if b.child && b.cancelAt == 101 && err == nil && b.readsDone.Add(1) == b.expectReads {
+		b.cancelNow(ctx)
+	}
+	return err
 }
 func (b *fb) ReadToAt(ctx context.Context, p string, w io.Writer, off int64) error {
 	return b.inner.ReadToAt(ctx, p, w, off)
@@ -257,6 +294,9 @@ type caseT struct {
 	manInputs map[string][]string // manifest path -> inputs (learned from manifest writes)
 	manOut    map[string]string
 	scanCache map[string][]int
+	curAged   bool
+	ages      []int64 // per faulty cycle: seconds added to the clock before the cycle
+	zeroTs    []bool  // per faulty cycle: rewrite pending manifests with a zero created_at first
 }
 
 var (
@@ -707,7 +747,29 @@ type jobRec struct {
 	outcome string
 }
 
-func (cs *caseT) runCycle(plan []fault, recFailIdx int) string {
+func (cs *caseT) runCycle(plan []fault, recFailIdx int, ageSec int64, zeroTs bool) string {
+	if zeroTs { // manifests whose created_at is the zero time
+		filepath.WalkDir(filepath.Join(cs.root, manState), func(p string, d os.DirEntry, err error) error {
+			if err != nil || d.IsDir() || !strings.HasSuffix(p, ".json") {
+				return nil
+			}
+			if b, err := os.ReadFile(p); err == nil {
+				var m compaction.Manifest
+				if json.Unmarshal(b, &m) == nil {
+					m.CreatedAt = time.Time{}
+					if nb, err := json.MarshalIndent(&m, "", "  "); err == nil {
+						os.WriteFile(p, nb, 0o644)
+					}
+				}
+			}
+			return nil
+		})
+	}
+	if ageSec > 0 { // time passes between the crash and this cycle (manifest.go runs on the virtual clock)
+		verifclock.Set(time.Now().UnixNano() + ageSec*int64(time.Second))
+		defer verifclock.Real()
+	}
+	cs.curAged = ageSec > 0 || zeroTs
 	logger := zerolog.Nop()
 	inner, err := storage.NewLocalBackend(cs.root, logger)
 	if err != nil {
@@ -716,7 +778,7 @@ func (cs *caseT) runCycle(plan []fault, recFailIdx int) string {
 	ctx, cancel := context.WithCancel(context.Background())
 	defer cancel()
 	ep := &epoch{cancel: cancel}
-	parent := &fb{inner: inner, ep: ep, dieAt: -1}
+	parent := &fb{inner: inner, ep: ep, dieAt: -1, cancelAt: -1}
 	parent.onMut = func(kind, path string, data []byte) { cs.observe("recovery", kind, path, data) }
 	if recFailIdx >= 0 {
 		// the recovery delete of one input of the oldest manifest fails with a storage error
@@ -763,9 +825,17 @@ func (cs *caseT) runCycle(plan []fault, recFailIdx int) string {
 			if !ok {
 				panic("verif: child backend is not a LocalBackend")
 			}
-			child = &fb{inner: lb, ep: ep, child: true, dieAt: ft.pos, kind: ft.kind}
+			child = &fb{inner: lb, ep: ep, child: true, dieAt: ft.pos, kind: ft.kind, cancelAt: -1}
 			if ft.pos >= 1000 {
 				child.dieAt = -1
+			}
+			if ft.kind == fCancel {
+				child.dieAt, child.cancelAt = -1, ft.pos
+				for _, f := range cfg.Files {
+					if _, err := os.Stat(filepath.Join(cs.root, f)); err == nil {
+						child.expectReads++
+					}
+				}
 			}
 			child.onMut = func(kind, path string, data []byte) {
 				if kind == "writeManifest" {
@@ -819,7 +889,7 @@ func (cs *caseT) runCycle(plan []fault, recFailIdx int) string {
 		if child != nil {
 			nm = child.nmut
 		}
-		if died == fNone && ft.pos >= 1000 && rerr == nil {
+		if died == fNone && ft.pos >= 1000 && ft.kind != fCancel && rerr == nil {
 			died = ft.kind // dies after its last mutation, before it can report
 		}
 		if died == fTorn {
@@ -827,7 +897,7 @@ func (cs *caseT) runCycle(plan []fault, recFailIdx int) string {
 		}
 		switch died {
 		case fKill:
-			jr.outcome = fmt.Sprintf("killed@%d", nm)
+			jr.outcome = fmt.Sprintf("died@%d", nm)
 			res, rerr = nil, fmt.Errorf("subprocess failed: %w (stderr: %s)", errors.New("signal: killed"), "")
 		case fCrash:
 			jr.outcome = fmt.Sprintf("crashed@%d", nm)
@@ -847,7 +917,8 @@ func (cs *caseT) runCycle(plan []fault, recFailIdx int) string {
 					}
 				}
 			} else {
-				jr.outcome = "fail:" + classifyErr(res.Error)
+				jr.outcome = fmt.Sprintf("died@%d", nm) // the job gave up (result.Success=false)
+				ctxC.Tag("job-failed:" + classifyErr(res.Error))
 			}
 		}
 		jobs = append(jobs, jr)
@@ -888,6 +959,41 @@ func classifyErr(s string) string {
 		return "compact"
 	}
 	return "other"
+}
+
+// observeManifestDrop: a manifest may go only when nothing depends on it any more: its output is absent
+// (or partial), or every input it lists is gone. Dropping it while the complete output AND inputs are
+// on storage leaves their rows visible twice with nothing left to reconcile them.
+func (cs *caseT) observeManifestDrop(who, mpath string) {
+	b, err := os.ReadFile(filepath.Join(cs.root, mpath))
+	if err != nil {
+		return
+	}
+	var m compaction.Manifest
+	if json.Unmarshal(b, &m) != nil {
+		return
+	}
+	st, err := os.Stat(filepath.Join(cs.root, m.OutputPath))
+	if err != nil || st.Size() != m.OutputSize {
+		return
+	}
+	var live []string
+	for _, f := range m.InputFiles {
+		if _, err := os.Stat(filepath.Join(cs.root, f)); err == nil {
+			live = append(live, cs.canonName(f))
+		}
+	}
+	if len(live) == 0 {
+		return
+	}
+	cause := "manifest-dropped:" + who
+	cs.causes[cause] = true
+	if cs.curAged && who == "recovery" {
+		cs.causes["stale-manifest-dropped"] = true
+	}
+	key := "C09:manifest-deleted-while-output-and-inputs-visible:" + who
+	ctxC.Fail(key, fmt.Sprintf("%s deleted the manifest of %s although the complete output and its inputs [%s] are on storage (aged=%v)",
+		who, cs.canonName(m.OutputPath), strings.Join(live, ","), cs.curAged), cs.replay.String())
 }
 
 // rowsAt: ids of the rows of a data file on storage (original inputs from memory, others scanned once).
@@ -937,6 +1043,10 @@ func (cs *caseT) lossLevel(path string) int {
 // observe: property monitor for "no input file is removed before its rows are in a complete output".
 // Called right BEFORE a storage mutation is applied (job side and recovery side).
 func (cs *caseT) observe(who, kind, path string, data []byte) {
+	if kind == "delManifest" {
+		cs.observeManifestDrop(who, path)
+		return
+	}
 	if kind != "delInput" {
 		return
 	}
